@@ -183,6 +183,7 @@ def run(chk, prog):
                    'apply_any_patch is reached on every path except under async_saving',
                    '%s can return without apply_any_patch although no background save is active: the look-ahead\'s '
                    'variable / visit-count changes are never merged into the committed state' % name, f.loc(0))
+    patch_read_modify_write(chk, prog, tr)
 
 
 def check_conditional_copies(chk, prog, tr, cp, fields, R1):
@@ -282,3 +283,31 @@ def check_conditional_copies(chk, prog, tr, cp, fields, R1):
         chk.decide(R4, chk.key(R4, 'set-on-push'), bool(sets), 'CallStack::push records the output position',
                    'CallStack::push no longer records function_start_in_output_stream: function-start trimming is lost',
                    cpush.loc(0))
+
+
+def patch_read_modify_write(chk, prog, tr):
+    R5 = 'C01.count-incremented-through-the-patch'
+    chk.rule(R5, 'A visit count written into the look-ahead patch (StatePatch::set_visit_count) as "previous + 1" takes '
+             '"previous" from a read that consults the patch first (visit_count_for_container / StatePatch::get_visit_count): '
+             'a count computed from the committed map alone makes every further entry of the same container during one '
+             'look-ahead overwrite the first (entered twice after a line end, counted once).')
+    lt = Tracer(prog, transparent=lambda cs: True, use_summaries=False)
+    n = 0
+    for fn in sorted(prog.fns.values(), key=lambda f: f.p):
+        if fn.crate != 'bladeink':
+            continue
+        for bb, t in fn.calls():
+            if callee_short(t) != 'StatePatch::set_visit_count' or len(t['args']) < 3:
+                continue
+            n += 1
+            at = lt.prov(fn, t['args'][2])
+            derived = any(a.startswith('op:') for a in at)
+            through_patch = any(a in ('via:StoryState::visit_count_for_container', 'via:StatePatch::get_visit_count',
+                                      'call:StoryState::visit_count_for_container', 'call:StatePatch::get_visit_count')
+                                for a in at) or 'field:StatePatch::visit_counts' in at
+            chk.decide(R5, chk.key(R5, prog.root_fn(fn).short, '#%d' % n), (not derived) or through_patch,
+                       'the incremented value is read through the patch',
+                       '%s stores into the look-ahead patch a visit count computed from %s without consulting the patch: a '
+                       'second entry of the container in the same look-ahead overwrites the first increment'
+                       % (prog.root_fn(fn).short, sorted(a for a in at if a.startswith('field:'))[:3]), fn.loc(bb))
+    chk.floor(R5, 'writes of a visit count into the patch', n, 1)
